@@ -206,7 +206,31 @@ package jsonpath
 //@ spec WFunionDef(n *syntaxUnionQualifier) bool = !RLok(n) && n != nil && height(n) == hgt(n.syntaxBasicNode) && WFunionAt(n) && (chainSingle(n) ==> singleNext(n.syntaxBasicNode) && len(n.subscripts) == 1 && isType(elemAt(n.subscripts, off(n.subscripts)), *syntaxIndexSubscript))
 //@ spec WFmultiDef(n *syntaxChildMultiIdentifier) bool = !RLok(n) && n != nil && height(n) == hgt(n.syntaxBasicNode) && WFbasic(n.syntaxBasicNode) && errRT(n.syntaxBasicNode) && wf(n.identifiers) && (arr(n.identifiers) == 0 || RO(n.identifiers)) && (forall k {elemAt(n.identifiers, k)} :: off(n.identifiers) <= k && k < off(n.identifiers) + len(n.identifiers) ==> elemAt(n.identifiers, k) != nil && WFnode(elemAt(n.identifiers, k)) && height(elemAt(n.identifiers, k)) < height(n) && (isType(elemAt(n.identifiers, k), *syntaxChildSingleIdentifier) ==> asType(elemAt(n.identifiers, k), *syntaxChildSingleIdentifier) != nil)) && (n.isAllWildcard ==> WFunionAt(n.unionQualifier) && WFnode(n.unionQualifier) && height(n.unionQualifier) < height(n)) && !chainSingle(n)
 //@ spec WFrecursiveDef(n *syntaxRecursiveChildIdentifier) bool = !RLok(n) && n != nil && height(n) == hgt(n.syntaxBasicNode) && WFbasic(n.syntaxBasicNode) && errRT(n.syntaxBasicNode) && n.syntaxBasicNode.next != nil && !chainSingle(n)
-//@ spec WFfilterDef(n *syntaxFilterQualifier) bool = !RLok(n) && n != nil && height(n) == hgt(n.syntaxBasicNode) && WFbasic(n.syntaxBasicNode) && errRT(n.syntaxBasicNode) && n.query != nil && WFquery(n.query) && 0 <= qheight(n.query) && qheight(n.query) < height(n) && !chainSingle(n)
+// A filter over an array applies the continuation to the elements for which the filter holds (RH), in index order.
+// sumF: prefix sums of the guarded steps; segF: the segment of a position; an all-false filter selects nothing (sum of zeros:
+// arithmetic fact stated as an axiom, like the segment property).
+//@ smt (declare-fun sumF (Val Int Val (Array Int Val) Int Int Int) Int)
+//@ smt (declare-fun segF (Val Int Val (Array Int Val) Int Int Int) Int)
+//@ smt (assert (forall ((q Val) (b Int) (r Val) (A (Array Int Val)) (o Int) (m Int)) (! (= (sumF q b r A o m 0) 0) :pattern ((sumF q b r A o m 0)))))
+//@ smt (assert (forall ((q Val) (b Int) (r Val) (A (Array Int Val)) (o Int) (m Int) (j Int)) (! (=> (<= 0 j) (= (sumF q b r A o m (+ j 1)) (+ (sumF q b r A o m j) (ite (RH q r A o m j) (Kn b r (select A (idx o j))) 0)))) :pattern ((sumF q b r A o m j) (select A (idx o j))) :pattern ((sumF q b r A o m j) (RH q r A o m j)))))
+//@ smt (assert (forall ((q Val) (b Int) (r Val) (A (Array Int Val)) (o Int) (m Int) (x Int)) (! (=> (and (<= 0 x) (< x (sumF q b r A o m m)) (<= 0 m)) (and (<= 0 (segF q b r A o m x)) (< (segF q b r A o m x) m) (RH q r A o m (segF q b r A o m x)) (<= (sumF q b r A o m (segF q b r A o m x)) x) (< x (+ (sumF q b r A o m (segF q b r A o m x)) (Kn b r (select A (idx o (segF q b r A o m x)))))))) :pattern ((segF q b r A o m x)))))
+//@ smt (assert (forall ((q Val) (b Int) (r Val) (A (Array Int Val)) (o Int) (m Int)) (! (=> (forall ((j Int)) (=> (and (<= 0 j) (< j m)) (not (RH q r A o m j)))) (= (sumF q b r A o m m) 0)) :pattern ((sumF q b r A o m m)))))
+// Over an object the filter sees the member values in ascending key order: memArr(MV, MD) names that list; what a filter
+// decides depends only on the values of the list it is given (extensionality of RH over the range).
+//@ smt (declare-fun memArr ((Array Str Val) (Array Str Bool)) (Array Int Val))
+//@ smt (assert (forall ((MV (Array Str Val)) (MD (Array Str Bool)) (t Int)) (! (= (select (memArr MV MD) t) (select MV (skey MD t))) :pattern ((select (memArr MV MD) t)))))
+//@ smt (assert (forall ((q Val) (r Val) (A (Array Int Val)) (B (Array Int Val)) (o Int) (m Int) (j Int)) (! (=> (forall ((t Int)) (=> (and (<= 0 t) (< t m)) (= (select A (idx o t)) (select B (idx o t))))) (= (RH q r A o m j) (RH q r B o m j))) :pattern ((RH q r A o m j) (RH q r B o m j)))))
+//@ spec sumFMof(q syntaxQuery, b *syntaxBasicNode, r any, m map[string]interface{}, j int) int = sumF(q, b, r, memArr(M_val[m], M_dom[m]), 0, len(m), j)
+//@ spec segFMof(q syntaxQuery, b *syntaxBasicNode, r any, m map[string]interface{}, x int) int = segF(q, b, r, memArr(M_val[m], M_dom[m]), 0, len(m), x)
+//@ spec RHmap(q syntaxQuery, r any, m map[string]interface{}, j int) bool = RH(q, r, memArr(M_val[m], M_dom[m]), 0, len(m), j)
+//@ spec memAt(m map[string]interface{}, t int) any = memArr(M_val[m], M_dom[m])[idxOf(0, t)]
+//@ spec RLfilterMap(n *syntaxFilterQualifier) bool = (forall r Val, c Val {RLn(n, r, c)} :: isType(c, map[string]interface{}) ==> RLn(n, r, c) == sumFMof(n.query, n.syntaxBasicNode, r, mapOf(c), len(mapOf(c)))) && (forall r Val, c Val, x {RLv(n, r, c, x)} :: isType(c, map[string]interface{}) && 0 <= x && x < RLn(n, r, c) ==> RLv(n, r, c, x) == Kv(n.syntaxBasicNode, r, memAt(mapOf(c), segFMof(n.query, n.syntaxBasicNode, r, mapOf(c), x)), x - sumFMof(n.query, n.syntaxBasicNode, r, mapOf(c), segFMof(n.query, n.syntaxBasicNode, r, mapOf(c), x))))
+//@ spec sumFof(q syntaxQuery, b *syntaxBasicNode, r any, s []interface{}, j int) int = sumF(q, b, r, A_Val[arr(s)], off(s), len(s), j)
+//@ spec segFof(q syntaxQuery, b *syntaxBasicNode, r any, s []interface{}, x int) int = segF(q, b, r, A_Val[arr(s)], off(s), len(s), x)
+//@ spec RHin(q syntaxQuery, r any, s []interface{}, j int) bool = RH(q, r, A_Val[arr(s)], off(s), len(s), j)
+//@ spec RLfilterList(n *syntaxFilterQualifier) bool = (forall r Val, c Val {RLn(n, r, c)} :: isType(c, []interface{}) ==> RLn(n, r, c) == sumFof(n.query, n.syntaxBasicNode, r, listOf(c), len(listOf(c)))) && (forall r Val, c Val, x {RLv(n, r, c, x)} :: isType(c, []interface{}) && 0 <= x && x < RLn(n, r, c) ==> RLv(n, r, c, x) == Kv(n.syntaxBasicNode, r, A_Val[arr(listOf(c))][idxOf(off(listOf(c)), segFof(n.query, n.syntaxBasicNode, r, listOf(c), x))], x - sumFof(n.query, n.syntaxBasicNode, r, listOf(c), segFof(n.query, n.syntaxBasicNode, r, listOf(c), x))))
+//@ spec RLfilterDef(n *syntaxFilterQualifier) bool = RLok(n) ==> Kok(n.syntaxBasicNode) && RLfilterList(n) && RLfilterMap(n) && (forall r Val, c Val {RLn(n, r, c)} :: !isType(c, []interface{}) && !isType(c, map[string]interface{}) ==> RLn(n, r, c) == 0)
+//@ spec WFfilterDef(n *syntaxFilterQualifier) bool = RLfilterDef(n) && n != nil && height(n) == hgt(n.syntaxBasicNode) && WFbasic(n.syntaxBasicNode) && errRT(n.syntaxBasicNode) && n.query != nil && WFquery(n.query) && 0 <= qheight(n.query) && qheight(n.query) < height(n) && !chainSingle(n)
 //@ spec WFffuncDef(n *syntaxFilterFunction) bool = RLffuncDef(n) && n != nil && height(n) == hgt(n.syntaxBasicNode) && WFbasic(n.syntaxBasicNode) && errRT(n.syntaxBasicNode) && n.function != nil && (chainSingle(n) ==> singleNext(n.syntaxBasicNode))
 //@ spec WFafuncDef(n *syntaxAggregateFunction) bool = !RLok(n) && n != nil && height(n) == hgt(n.syntaxBasicNode) && WFbasic(n.syntaxBasicNode) && errRT(n.syntaxBasicNode) && n.function != nil && n.param != nil && WFnode(n.param) && height(n.param) < height(n) && (chainSingle(n) ==> singleNext(n.syntaxBasicNode))
 
@@ -865,27 +889,48 @@ package jsonpath
 //@   loop 1 invariant none: !hasValue ==> (forall j {elemAt(computedList, j)} :: 0 <= j && j <= rangeindex ==> elemAt(computedList, j) == emptyEntity)
 
 //@ func (*syntaxFilterQualifier).retrieve
-//@   props C03 C04 C05 C06 C20 C15
+//@   props C01 C03 C04 C05 C06 C20 C15
 //@   implements syntaxNode.retrieve
 //@   unfold WFnode(this) ==> WFfilterDef(f)
 //@   ensures mismatch: !isType(current, map[string]interface{}) && !isType(current, []interface{}) ==> mismatch(ret, f.errorRuntime, "object/array", current) && len(container.result) == old(len(container.result))
 
+//@ spec keysEnum(keys []string, m map[string]interface{}) bool = len(keys) == len(m) && (forall t {keys[t]} {skey(M_dom[m], t)} :: 0 <= t && t < len(keys) ==> keys[t] == skey(M_dom[m], t) && has(m, keys[t]))
 //@ func (*syntaxFilterQualifier).retrieveMap
-//@   props C03 C04 C05 C06 C07 C20
+//@   props C01 C03 C04 C05 C06 C07 C20
 //@   requires WFfilterDef(f)
 //@   include retrieveFrame
 //@   decreases 3*height(f) + 1
+//@   ensures count: Kok(f.syntaxBasicNode) ==> appended(container, sumFMof(f.query, f.syntaxBasicNode, root, srcMap, len(srcMap)))
+//@   ensures values: Kok(f.syntaxBasicNode) ==> (forall t, k {Kv(f.syntaxBasicNode, root, memAt(srcMap, t), k)} :: 0 <= t && t < len(srcMap) && RHmap(f.query, root, srcMap, t) && 0 <= k && k < Kn(f.syntaxBasicNode, root, memAt(srcMap, t)) ==> resAt(container, sumFMof(f.query, f.syntaxBasicNode, root, srcMap, t) + k) == Kv(f.syntaxBasicNode, root, memAt(srcMap, t), k))
+//@   ensures fails: Kok(f.syntaxBasicNode) && old(len(container.result)) == 0 ==> ((ret == nil) <==> sumFMof(f.query, f.syntaxBasicNode, root, srcMap, len(srcMap)) > 0)
 //@   loop 1 invariant bufInv(container)
 //@   loop 1 invariant ownsKeys(sortKeys) && wf(valueList) && mine(valueList) && len(valueList) == len(srcMap) && len(poolSlice(sortKeys)) == len(srcMap) && off(valueList) == 0 && arr(valueList) != arr(container.result) && arr(valueList) != 0
 //@   loop 1 invariant forall k {elemAt(valueList, k)} :: 0 <= k && k <= rangeindex ==> extVal(elemAt(valueList, k))
+//@   loop 1 invariant keys: keysEnum(poolSlice(sortKeys), srcMap) && arr(poolSlice(sortKeys)) != arr(valueList)
+//@   loop 1 invariant members: forall k {elemAt(valueList, k)} :: 0 <= k && k <= rangeindex1 ==> elemAt(valueList, k) == memAt(srcMap, k)
 //@   loop 2 invariant bufInv(container) && errInv(deepestTextLen, deepestError) && ownsKeys(sortKeys) && len(poolSlice(sortKeys)) == len(srcMap)
+// the verdicts compute returns are about the list it was given; that list holds the members in key order (extensionality)
+//@   after compute#1 assert bridge: forall j {RHmap(f.query, root, srcMap, j)} :: 0 <= j && j < len(srcMap) ==> (RHmap(f.query, root, srcMap, j) <==> RH(f.query, root, atcall(A_Val[arr(arg1)]), 0, len(srcMap), j))
+//@   loop 2 invariant keys: keysEnum(poolSlice(sortKeys), srcMap)
+//@   loop 2 invariant verdicts: wf(valueList) && off(valueList) == 0 && (len(valueList) == 1 || len(valueList) == len(srcMap)) && arr(valueList) != arr(container.result) && (mine(valueList) || RO(valueList)) && (forall j {elemAt(valueList, j)} {RHmap(f.query, root, srcMap, j)} :: 0 <= j && j < len(srcMap) ==> (holdsAt(valueList, j) <==> RHmap(f.query, root, srcMap, j)))
+//@   loop 2 invariant seed: rangeindex2 + 1 < len(srcMap) ==> memAt(srcMap, rangeindex2 + 1) == M_val[srcMap][skey(M_dom[srcMap], rangeindex2 + 1)] && (holdsAt(valueList, rangeindex2 + 1) <==> RHmap(f.query, root, srcMap, rangeindex2 + 1))
+//@   loop 2 invariant cnt: Kok(f.syntaxBasicNode) ==> appended(container, sumFMof(f.query, f.syntaxBasicNode, root, srcMap, rangeindex2 + 1))
+//@   loop 2 invariant vals: Kok(f.syntaxBasicNode) ==> (forall t, k {Kv(f.syntaxBasicNode, root, memAt(srcMap, t), k)} :: 0 <= t && t <= rangeindex2 && RHmap(f.query, root, srcMap, t) && 0 <= k && k < Kn(f.syntaxBasicNode, root, memAt(srcMap, t)) ==> resAt(container, sumFMof(f.query, f.syntaxBasicNode, root, srcMap, t) + k) == Kv(f.syntaxBasicNode, root, memAt(srcMap, t), k))
+//@   loop 2 invariant mono: Kok(f.syntaxBasicNode) ==> (forall t {sumFMof(f.query, f.syntaxBasicNode, root, srcMap, t)} :: 0 <= t && t <= rangeindex2 ==> 0 <= sumFMof(f.query, f.syntaxBasicNode, root, srcMap, t) && sumFMof(f.query, f.syntaxBasicNode, root, srcMap, t) + (RHmap(f.query, root, srcMap, t) ? Kn(f.syntaxBasicNode, root, memAt(srcMap, t)) : 0) <= len(container.result) - old(len(container.result)))
 
 //@ func (*syntaxFilterQualifier).retrieveList
-//@   props C03 C04 C05 C06 C07 C20
+//@   props C01 C03 C04 C05 C06 C07 C20
 //@   requires WFfilterDef(f) && docArr(srcList) && wf(srcList)
 //@   include retrieveFrame
 //@   decreases 3*height(f) + 1
+//@   ensures count: Kok(f.syntaxBasicNode) ==> appended(container, sumFof(f.query, f.syntaxBasicNode, root, srcList, len(srcList)))
+//@   ensures values: Kok(f.syntaxBasicNode) ==> (forall t, k {Kv(f.syntaxBasicNode, root, A_Val[arr(srcList)][idxOf(off(srcList), t)], k)} :: 0 <= t && t < len(srcList) && RHin(f.query, root, srcList, t) && 0 <= k && k < Kn(f.syntaxBasicNode, root, A_Val[arr(srcList)][idxOf(off(srcList), t)]) ==> resAt(container, sumFof(f.query, f.syntaxBasicNode, root, srcList, t) + k) == Kv(f.syntaxBasicNode, root, A_Val[arr(srcList)][idxOf(off(srcList), t)], k))
+//@   ensures fails: Kok(f.syntaxBasicNode) && old(len(container.result)) == 0 ==> ((ret == nil) <==> sumFof(f.query, f.syntaxBasicNode, root, srcList, len(srcList)) > 0)
 //@   loop 1 invariant bufInv(container) && errInv(deepestTextLen, deepestError)
+//@   loop 1 invariant verdicts: wf(valueList) && off(valueList) == 0 && (len(valueList) == 1 || len(valueList) == len(srcList)) && arr(valueList) != arr(container.result) && (mine(valueList) || RO(valueList)) && (forall j {elemAt(valueList, j)} {RHin(f.query, root, srcList, j)} :: 0 <= j && j < len(srcList) ==> (holdsAt(valueList, j) <==> RHin(f.query, root, srcList, j)))
+//@   loop 1 invariant cnt: Kok(f.syntaxBasicNode) ==> appended(container, sumFof(f.query, f.syntaxBasicNode, root, srcList, rangeindex1 + 1))
+//@   loop 1 invariant vals: Kok(f.syntaxBasicNode) ==> (forall t, k {Kv(f.syntaxBasicNode, root, A_Val[arr(srcList)][idxOf(off(srcList), t)], k)} :: 0 <= t && t <= rangeindex1 && RHin(f.query, root, srcList, t) && 0 <= k && k < Kn(f.syntaxBasicNode, root, A_Val[arr(srcList)][idxOf(off(srcList), t)]) ==> resAt(container, sumFof(f.query, f.syntaxBasicNode, root, srcList, t) + k) == Kv(f.syntaxBasicNode, root, A_Val[arr(srcList)][idxOf(off(srcList), t)], k))
+//@   loop 1 invariant mono: Kok(f.syntaxBasicNode) ==> (forall t {sumFof(f.query, f.syntaxBasicNode, root, srcList, t)} :: 0 <= t && t <= rangeindex1 ==> 0 <= sumFof(f.query, f.syntaxBasicNode, root, srcList, t) && sumFof(f.query, f.syntaxBasicNode, root, srcList, t) + (RHin(f.query, root, srcList, t) ? Kn(f.syntaxBasicNode, root, A_Val[arr(srcList)][idxOf(off(srcList), t)]) : 0) <= len(container.result) - old(len(container.result)))
 
 //@ func Parse$2
 //@   props C01 C03 C04 C05 C06 C20
